@@ -301,25 +301,47 @@ def rule_lfda(repo, rep):
   c = repo.get_class('LFDA')
   f = repo.resolve_method(c, 'fit')
   rep.analysed(f)
-  orders = [n for n in ast.walk(f.node) if isinstance(n, ast.Assign) and
-            isinstance(n.targets[0], ast.Name) and
-            isinstance(n.value, ast.Subscript) and
-            isinstance(n.value.value, ast.Call) and
-            (repo.dotted(f.module, n.value.value.func) or '').endswith(
-                'argsort')]
+  def argsort_chain(e):
+    """(argsort call, [slices outermost last]) for call[...][...]"""
+    sl = []
+    while isinstance(e, ast.Subscript):
+      sl.append(e.slice)
+      e = e.value
+    if isinstance(e, ast.Call) and (repo.dotted(f.module, e.func) or
+                                    '').endswith('argsort'):
+      return e, list(reversed(sl))
+    return None, None
+  orders = []
+  for n in ast.walk(f.node):
+    if isinstance(n, ast.Assign) and isinstance(n.targets[0], ast.Name):
+      call, sl = argsort_chain(n.value)
+      if call is not None and sl:
+        orders.append((n, call, sl))
   if not orders:
     rep.unknown(R, 'LFDA.fit:order', site(f), 'ordering statement not found')
-  for n in orders:
-    arg = n.value.value.args[0]
-    sl = n.value.slice
+  for (n, call, sl) in orders:
+    arg = call.args[0]
     desc = isinstance(arg, ast.UnaryOp) and isinstance(arg.op, ast.USub)
-    prefix = isinstance(sl, ast.Slice) and sl.lower is None and \
-        sl.step is None and sl.upper is not None
-    rev = isinstance(sl, ast.Slice) and sl.step is not None and \
-        ast.unparse(sl.step) == '-1'
-    if desc and prefix:
-      rep.derived(R, 'LFDA.fit:order', site(f, n))
-    elif rev and not desc:
+    nrev = 0
+    prefix = False
+    bad = False
+    for s_ in sl:
+      if isinstance(s_, ast.Slice) and s_.lower is None and \
+              s_.upper is None and s_.step is not None and \
+              ast.unparse(s_.step) == '-1':
+        if prefix:
+          bad = True          # reversing after truncation keeps the smallest
+        nrev += 1
+      elif isinstance(s_, ast.Slice) and s_.lower is None and \
+              s_.step is None and s_.upper is not None:
+        prefix = True
+      else:
+        bad = True
+    decreasing = (desc != (nrev % 2 == 1))
+    if bad:
+      rep.unknown(R, 'LFDA.fit:order', site(f, n), 'unrecognised selection '
+                  '%s' % ast.unparse(n.value))
+    elif decreasing and prefix:
       rep.derived(R, 'LFDA.fit:order', site(f, n))
     else:
       rep.refuted(R, 'LFDA.fit:order', site(f, n), 'eigenvalues are not '
